@@ -195,9 +195,9 @@ type ReportUnresolvedConfig struct {
 // ReportUnresolved generates report for unresolved elements
 func ReportUnresolved(logStream, dbStream io.Reader, ruc ReportUnresolvedConfig) error {
 	return utils.WithResolvedDatabase(dbStream, ruc.ParserConfig, ruc.ResolverConfig,
-		func(nl shared.DBNodeMap) error {
+		func(nl shared.DBNodeMap) (err error) {
 			r := NewUnsolvedReporter(ruc.ReporterConfig, nl)
-			defer r.Flush()
+			defer utils.FlushOutput(r, &err)
 			f := filter.GetIntervalNodeFilter(ruc.FilterConfig)
 			return utils.WalkNodesInStream(logStream, ruc.DateFormat, ruc.ParserConfig, f, r)
 		})
@@ -212,9 +212,9 @@ type ReportQuantityConfig struct {
 }
 
 // ReportQuantity Generates a quantity report
-func ReportQuantity(logStream io.Reader, rqc ReportQuantityConfig) error {
+func ReportQuantity(logStream io.Reader, rqc ReportQuantityConfig) (err error) {
 	r := NewQuantityReporter(rqc.ReporterConfig, rqc.Descending)
-	defer r.Flush()
+	defer utils.FlushOutput(r, &err)
 	f := filter.GetIntervalNodeFilter(rqc.FilterConfig)
 	return utils.WalkNodesInStream(logStream, rqc.DateFormat, rqc.ParserConfig, f, r)
 }
@@ -229,9 +229,9 @@ type ReportTotalsConfig struct {
 
 func ReportTotals(logStream, dbStream io.Reader, rqc ReportTotalsConfig) error {
 	return utils.WithResolvedDatabase(dbStream, rqc.ParserConfig, rqc.ResolverConfig,
-		func(nl shared.DBNodeMap) error {
+		func(nl shared.DBNodeMap) (err error) {
 			r := NewTotalReporter(rqc.ReporterConfig, nl)
-			defer r.Flush()
+			defer utils.FlushOutput(r, &err)
 			f := filter.GetIntervalNodeFilter(rqc.FilterConfig)
 			return utils.WalkNodesInStream(logStream, rqc.DateFormat, rqc.ParserConfig, f, r)
 		})
